@@ -9,4 +9,5 @@ INVARIANT FirstNoteAtZero
 INVARIANT DurationsKept
 INVARIANT ProgramsFromZero
 INVARIANT Idempotent
+INVARIANT PartsStayTogether
 CHECK_DEADLOCK FALSE
